@@ -21,6 +21,8 @@ var kinds = map[string]kind{
 	"cons": {genCons, runCons},
 	"grp":  {genGrp, runGrp},
 	"cmt":  {genCmt, runCmt},
+	"off":  {genOff, runOff},
+	"sel":  {genSel, runSel},
 }
 
 func TestMain(m *testing.M) {
